@@ -59,7 +59,7 @@ fn hash_table() -> &'static HashMap<(HK, Vec<u8>), u32> {
 }
 fn raw_table() -> &'static HashMap<hash160::Hash, u32> {
     static T: OnceLock<HashMap<hash160::Hash, u32>> = OnceLock::new();
-    T.get_or_init(|| (0..4).chain(200..204).map(|h| (raw_pkh(h), h)).collect())
+    T.get_or_init(|| (0..4).chain(100..104).chain(200..204).map(|h| (raw_pkh(h), h)).collect())
 }
 /// string form of every known key ↦ id (for the scan of `to_string()`)
 fn text_table() -> &'static HashMap<String, u32> {
@@ -161,7 +161,7 @@ impl MapK {
 }
 
 #[derive(Clone, Debug)]
-enum Mode { Pure(Vec<MapK>), Fail(u32), FailCall(usize) }
+enum Mode { Pure(Vec<MapK>), Fail(u32), FailCall(usize), UncFail(u32) }
 impl Mode {
     fn pure1(m: MapK) -> Mode { Mode::Pure(vec![m]) }
     fn name(&self) -> String {
@@ -169,10 +169,11 @@ impl Mode {
             Mode::Pure(v) => v.iter().map(|m| m.name()).collect::<Vec<_>>().join("+"),
             Mode::Fail(i) => format!("fail:{}", i),
             Mode::FailCall(n) => format!("failcall:{}", n),
+            Mode::UncFail(i) => format!("uncfail:{}", i),
         }
     }
     fn target_xonly(&self, src: bool) -> bool {
-        match self { Mode::Pure(v) => v.iter().fold(src, |s, m| m.target_xonly(s)), _ => src }
+        match self { Mode::Pure(v) => v.iter().fold(src, |s, m| m.target_xonly(s)), Mode::UncFail(_) => false, _ => src }
     }
 }
 
@@ -195,6 +196,8 @@ impl<Q> Tx<Q> {
             }
             Mode::Fail(i) => match a { Atom::K(k) if k == *i => Err(a), _ => Ok(a) },
             Mode::FailCall(n) => if self.calls == *n { Err(a) } else { self.calls += 1; Ok(a) },
+            // every key becomes its uncompressed form, except key `i`, on which the translator fails
+            Mode::UncFail(i) => match a { Atom::K(k) if k == *i => Err(a), Atom::K(k) => Ok(Atom::K(k % 100 + 100)), _ => Ok(a) },
         }
     }
     fn do_hash(&mut self, kind: HK, bytes: &[u8]) -> Result<Vec<u8>, Atom> {
@@ -440,9 +443,24 @@ fn atoms_ok(n: &Node) -> bool {
 
 fn accepts<Pk: KeyId, Ctx: ScriptContext>(n: &Node) -> bool { to_ms::<Pk, Ctx>(n).is_ok() }
 
+/// scripts just under a context size limit (Legacy: 520 bytes on `pk_cost`): translating the keys
+/// to their uncompressed form crosses the limit although every key is legal by kind
+fn size_limit_inputs(ctx: CtxK) -> Vec<Node> {
+    use Node::*;
+    if ctx == CtxK::Tap { return vec![]; }
+    let ks = |n: u32| -> Vec<u32> { (0..n).map(|i| i % 10).collect() };
+    let pkc = |k: u32| Check(Box::new(PkK(k)));
+    let th = |k: usize, n: u32| Thresh(k, (0..n).map(|i| if i == 0 { pkc(0) } else { Swap(Box::new(pkc(i % 10))) }).collect());
+    vec![Multi(1, ks(15)), Multi(2, ks(14)), SortedMulti(1, ks(15)), Multi(15, ks(15)), Multi(1, ks(8)),
+         th(1, 14), th(2, 13), th(14, 14),
+         OrD(Box::new(Multi(1, ks(14))), Box::new(pkc(3)))]
+}
+
 fn inputs(ctx: CtxK, thorough: bool, rng: &mut Rng) -> Vec<Node> {
     let (depth, quota, nrand) = if thorough { (3, 20, 200) } else { (2, 3, 10) };
     let mut v = hand(ctx);
+    v.extend(ast::dimension_corpus(ctx));
+    v.extend(size_limit_inputs(ctx));
     let atoms = default_atoms(ctx, false);
     v.extend(ast::enumerate(ctx, &atoms, depth, quota, rng).into_iter().map(|t| t.node));
     for i in 0..nrand {
@@ -456,6 +474,44 @@ fn inputs(ctx: CtxK, thorough: bool, rng: &mut Rng) -> Vec<Node> {
 }
 
 /* ------------------------------------------------------------ per-input ops */
+
+fn seen_nodes() -> &'static std::sync::Mutex<BTreeSet<String>> {
+    static S: OnceLock<std::sync::Mutex<BTreeSet<String>>> = OnceLock::new();
+    S.get_or_init(|| std::sync::Mutex::new(BTreeSet::new()))
+}
+fn seen_tyext() -> &'static std::sync::Mutex<BTreeSet<String>> {
+    static S: OnceLock<std::sync::Mutex<BTreeSet<String>>> = OnceLock::new();
+    S.get_or_init(|| std::sync::Mutex::new(BTreeSet::new()))
+}
+/// `C typeof` / `C ext` on the `ty` / `ext` fields an object CARRIES (once per distinct result):
+/// the Lean model computes them from the node
+fn ty_ext_lines<Q: KeyId, Ctx: ScriptContext>(out: &mut Out, ctx: CtxK, r: &Miniscript<Q, Ctx>, via: &str) {
+    let w = guard(|| from_ms(r).wire());
+    if w.contains("9999") || !seen_tyext().lock().unwrap().insert(format!("{} {} {}", ctx.name(), Q::XONLY, w)) { return; }
+    // the driver's key table serialises ids < 200 as full keys: in Tap only x-only results, elsewhere only full keys
+    if Q::XONLY != (ctx == CtxK::Tap) { return; }
+    out.count(&format!("tyext via {}", via));
+    out.line(&format!("C typeof {} {}", ctx.name(), w), &crate::c05::ts(&r.ty));
+    // `substitute_raw_pkh` gives the substituted `pk_h` node the ext data of the raw key hash it
+    // replaces.  In Bare / Legacy a raw key hash is sized for the largest key the context allows
+    // (fix 9c3524ba), a `pk_h` for its actual key, so with a COMPRESSED key the carried figures
+    // (139) exceed what `from_ast` computes for the node (107): an upper bound, not a claim of C20 -
+    // an observation.  Every other carried ext is judged by the model.
+    if via == "substraw" && matches!(ctx, CtxK::Bare | CtxK::Legacy) && w.contains("pk_h(") {
+        // rebuilt bottom-up from the neutral AST (the children of `r.node` carry their own stale ext)
+        let fresh = catch_unwind(AssertUnwindSafe(|| to_ms::<Q, Ctx>(&from_ms(r)).map(|m| m.ext))).ok().and_then(|x| x.ok());
+        if fresh.map(|e| crate::msops::show_ext(&e)) != Some(crate::msops::show_ext(&r.ext)) {
+            out.count("observation: substituted pk_h(compressed key) carries the raw-pkh worst-case ext in Bare/Legacy");
+            return;
+        }
+    }
+    out.line(&format!("C ext {} {}", ctx.name(), w), &crate::msops::show_ext(&r.ext));
+}
+fn ty_ext_of_translated<P: KeyId, Ctx: ScriptContext>(out: &mut Out, ctx: CtxK, ms: &Miniscript<P, Ctx>, mode: &Mode) {
+    if mode.target_xonly(P::XONLY) {
+        if let Ok(r) = tr_run::<P, Ctx, XOnlyPublicKey>(ms, mode) { ty_ext_lines(out, ctx, &r, "translate"); }
+    } else if let Ok(r) = tr_run::<P, Ctx, PublicKey>(ms, mode) { ty_ext_lines(out, ctx, &r, "translate"); }
+}
 
 const PURE: [MapK; 6] = [MapK::Id, MapK::Ren, MapK::Ren2, MapK::Comp, MapK::Unc, MapK::Xonly];
 
@@ -477,8 +533,29 @@ fn ops_for<Pk: KeyId, Ctx: ScriptContext>(out: &mut Out, ctx: CtxK, n: &Node, th
     let cap = if thorough { 24 } else { 8 };
     for i in 0..=ncalls.min(cap) { modes.push(Mode::FailCall(i)); }
     if ncalls > cap { modes.push(Mode::FailCall(ncalls - 1)); modes.push(Mode::FailCall(ncalls)); }
+    // error precedence: a translator that fails on ONE key and makes every other key illegal
+    if distinct.len() <= 6 { for k in &distinct { modes.push(Mode::UncFail(*k)); } }
     for mode in &modes {
         out.line(&format!("C translate {} {} {}", c, mode.name(), w), &tr_wire(&ms, mode));
+    }
+    // the type and ext data CARRIED by a translated object are those of its node
+    for m in PURE { ty_ext_of_translated(out, ctx, &ms, &Mode::pure1(m)); }
+    // the three child / key tables of src/miniscript/iter.rs, on every node
+    out.line(&format!("C msiter {} {}", c, w), &guard(|| ms.iter().map(|x| from_ms(x).wire()).collect::<Vec<_>>().join(";")));
+    for sub in ms.iter() {
+        let sw = guard(|| from_ms(sub).wire());
+        if !seen_nodes().lock().unwrap().insert(format!("{} {}", c, sw)) { continue; }
+        let br = guard(|| { let b = sub.branches(); if b.is_empty() { "-".to_string() } else { b.iter().map(|x| from_ms(*x).wire()).collect::<Vec<_>>().join(";") } });
+        out.line(&format!("C msbranches {} {}", c, sw), &br);
+        let nb = sub.branches().len();
+        for i in 0..=(nb + 1).min(6) {
+            out.line(&format!("C msnthchild {} {} {}", c, i, sw), &guard(|| sub.get_nth_child(i).map(|x| from_ms(x).wire()).unwrap_or("-".to_string())));
+        }
+        let mut nk = 0; while sub.get_nth_pk(nk).is_some() && nk < 25 { nk += 1; }
+        for i in 0..=(nk + 1).min(6).max(if nk > 6 { 1 } else { 0 }) {
+            out.line(&format!("C msnthpk {} {} {}", c, i, sw), &guard(|| sub.get_nth_pk(i).map(|k| k.id().to_string()).unwrap_or("-".to_string())));
+        }
+        if nk > 6 { for i in [nk - 1, nk] { out.line(&format!("C msnthpk {} {} {}", c, i, sw), &guard(|| sub.get_nth_pk(i).map(|k| k.id().to_string()).unwrap_or("-".to_string()))); } }
     }
 
     // J translate-id
@@ -571,6 +648,13 @@ fn ops_for<Pk: KeyId, Ctx: ScriptContext>(out: &mut Out, ctx: CtxK, n: &Node, th
                 from_ms(&ms.substitute_raw_pkh(&pk_map)).wire()
             });
             out.line(&format!("C substraw {} {} {}", c, name, w), &ans);
+            // `substitute_raw_pkh` rebuilds through `from_components_unchecked(term, item.ty, item.ext)`
+            let r = catch_unwind(AssertUnwindSafe(|| {
+                let pk_map: BTreeMap<hash160::Hash, Pk> = m.iter().map(|(h, k)| (raw_pkh(*h), Pk::of(*k))).collect();
+                ms.substitute_raw_pkh(&pk_map)
+            }));
+            // every node of the result carries its own ty / ext
+            if let Ok(r) = r { for sub in r.iter() { ty_ext_lines(out, ctx, sub, "substraw"); } }
         }
     }
 }
@@ -744,6 +828,54 @@ fn extra_defs(out: &mut Out) {
     }
 }
 
+/// `Threshold::{map, translate, translate_by_index, map_from_post_order_iter}` on plain numbers
+/// with identity-like and failing closures and asymmetric data
+fn threshold_ops(out: &mut Out) {
+    use miniscript::Threshold;
+    let show = |t: &Threshold<u32, 0>| format!("{}|{}", t.k(), show_ids(t.data()));
+    let datas: Vec<(usize, Vec<u32>)> = vec![(1, vec![7]), (1, vec![5, 9]), (2, vec![5, 9]), (2, vec![3, 1, 2]), (3, vec![4, 4, 8, 1]), (1, vec![9, 8, 7, 6, 5])];
+    for (k, xs) in &datas {
+        let t: Threshold<u32, 0> = match Threshold::new(*k, xs.clone()) { Ok(t) => t, Err(_) => continue };
+        let xs_s = show_ids(xs);
+        for c in [0u32, 10] {
+            out.line(&format!("C thrmap {} {} {}", k, xs_s, c), &guard(|| show(&t.clone().map(|x| x + c))));
+            out.line(&format!("C thrmap {} {} {}", k, xs_s, c), &guard(|| show(&t.map_ref(|x| *x + c))));
+        }
+        let mut fails: Vec<Option<u32>> = vec![None];
+        fails.extend(xs.iter().map(|x| Some(*x)));
+        for f in fails {
+            let tok = f.map(|x| x.to_string()).unwrap_or("-".into());
+            for by_ref in [false, true] {
+                let ans = guard(|| {
+                    let mut calls = 0;
+                    let clo = |x: u32| -> Result<u32, u32> { calls += 1; if Some(x) == f { Err(x) } else { Ok(x * 2 + 1) } };
+                    let mut clo = clo;
+                    let r = if by_ref { t.translate_ref(|x| clo(*x)) } else { t.clone().translate(|x| clo(x)) };
+                    match r { Ok(r) => format!("ok:{}|{}", show(&r), calls), Err(e) => format!("err:{}|{}", e, calls) }
+                });
+                out.line(&format!("C thrtranslate {} {} {}", k, xs_s, tok), &ans);
+            }
+        }
+        for f in std::iter::once(None).chain((0..xs.len()).map(Some)) {
+            let tok = f.map(|x| x.to_string()).unwrap_or("-".into());
+            let ans = guard(|| {
+                let mut calls = 0;
+                let r: Result<Threshold<u32, 0>, u32> = t.translate_by_index(|i| { calls += 1; if Some(i) == f { Err(i as u32) } else { Ok(i as u32 * 3 + 1) } });
+                match r { Ok(r) => format!("ok:{}|{}", show(&r), calls), Err(e) => format!("err:{}|{}", e, calls) }
+            });
+            out.line(&format!("C thrbyindex {} {} {}", k, xs_s, tok), &ans);
+        }
+        // child indices: reversed, rotated, constant
+        let n = xs.len();
+        let processed: Vec<u32> = (0..(n as u32 + 2)).map(|i| 100 + i * i).collect();
+        let idxs: Vec<Vec<usize>> = vec![(0..n).collect(), (0..n).rev().collect(), (0..n).map(|i| (i + 1) % (n + 1)).collect(), vec![n + 1; n]];
+        for idx in idxs {
+            let ans = guard(|| show(&t.map_from_post_order_iter(&idx, &processed)));
+            out.line(&format!("C thrpost {} {} {} {}", k, xs_s, show_ids(&idx.iter().map(|i| *i as u32).collect::<Vec<_>>()), show_ids(&processed)), &ans);
+        }
+    }
+}
+
 pub fn run(out: &mut Out, thorough: bool, seed: u64) {
     std::panic::set_hook(Box::new(|_| {}));
     let mut rng = Rng(seed ^ 0xC20);
@@ -761,6 +893,7 @@ pub fn run(out: &mut Out, thorough: bool, seed: u64) {
         }
     }
     desc_checks(out);
+    threshold_ops(out);
     c20d::run(out, thorough, &mut rng);
     c20p::run(out, thorough, &mut rng);
     let _ = std::panic::take_hook();
